@@ -44,12 +44,19 @@ func (sID SubscriptionID) SubscriptionIdentifier() string {
 }
 
 func (sID SubscriptionID) Unwrap() (string, MessageType, string, error) {
-	subIDParts := strings.Split(string(sID), "-")
-	if len(subIDParts) != 3 {
+	// the session ID itself may contain the separator (e.g. "1-2-100-104-0"), the two trailing
+	// parts never do, so the ID is split from the right
+	id := string(sID)
+	subIDSep := strings.LastIndex(id, "-")
+	if subIDSep < 0 {
+		return "", Unknown, "", errors.New("invalid subscriptionID")
+	}
+	msgTypeSep := strings.LastIndex(id[:subIDSep], "-")
+	if msgTypeSep < 0 {
 		return "", Unknown, "", errors.New("invalid subscriptionID")
 	}
 
-	msgType, err := strconv.ParseInt(subIDParts[1], 10, 8)
+	msgType, err := strconv.ParseInt(id[msgTypeSep+1:subIDSep], 10, 8)
 	if err != nil {
 		return "", Unknown, "", err
 	}
@@ -58,5 +65,5 @@ func (sID SubscriptionID) Unwrap() (string, MessageType, string, error) {
 		return "", Unknown, "", errors.New("invalid message type")
 	}
 
-	return subIDParts[0], MessageType(msgType), subIDParts[2], nil
+	return id[:msgTypeSep], MessageType(msgType), id[subIDSep+1:], nil
 }
